@@ -216,7 +216,8 @@ def worker_ws(arg):
         except (SyntaxError, ValueError, RecursionError, MemoryError):
             continue
         for text in corpus.split_statements(src, tree, max_chars=1200):
-            for fn, fam in ((pymutate.squeeze_all, "ws-squeezed"), (pymutate.spread_all, "ws-spread")):
+            for fn, fam in ((pymutate.squeeze_all, "ws-squeezed"), (pymutate.spread_all, "ws-spread"),
+                            (pymutate.break_all, "ws-broken-col0"), (lambda s: pymutate.break_all(s, 3, len(s)), "ws-broken-col0")):
                 try:
                     v = fn(text)
                 except RecursionError:
